@@ -110,6 +110,13 @@ def exec_for(V, s, st):
     it = V.ev(s.iter, st)
     outs = []
     V.drain_exc(outs)
+    live_src = it.items if isinstance(it, MEnum) and not isinstance(it.items, list) else it
+    if isinstance(live_src, SV) and V.is_live(live_src):
+        # iterating a live object runs its __iter__/__next__: effect obligation; the elements are live objects
+        V.live_effect(st, 'user:iter', live_src, s)
+        f = V.uf('Live.items', [Ref], z3.SeqSort(Ref))
+        seq = SV(SeqT(ObjT('Live')), f(live_src.z))
+        it = MEnum(seq, it.start) if isinstance(it, MEnum) else seq
     items = V.iter_items(it, st, s)
     if items is not None:
         return outs + unroll_concrete(V, s, items, st)
